@@ -256,7 +256,7 @@ func mutateJSON(t *rapid.T, doc []byte) ([]byte, string) {
 		}
 	}
 	rec(v)
-	if len(refs) == 0 || rapid.IntRange(0, 9).Draw(t, "jsonRoot") == 0 {
+	if len(refs) == 0 || rapid.IntRange(0, 3).Draw(t, "jsonRoot") == 0 {
 		return []byte(hostileJSON[rapid.IntRange(0, len(hostileJSON)-1).Draw(t, "jsonWhole")]), "json-replaced"
 	}
 	r := refs[rapid.IntRange(0, len(refs)-1).Draw(t, "jsonNode")]
